@@ -177,6 +177,21 @@ public:
       index=next_ptr ? next_ptr-entries : max_buffer_size;
     }
   }
+#ifndef SQUIDS_THREAD_LOCAL
+  ///The raw head of the data list (which==0) or of the free list (which!=0):
+  ///version counter and index of the first record, as a compare-and-swap on
+  ///the head would see them.
+  void verif_head(int which, unsigned long long& counter, unsigned long long& index){
+    list_head h=(which ? free_list : data_list).load();
+    counter=h.counter;
+    index=h.index;
+  }
+  ///The index of the record following record `index` (N if none)
+  unsigned long long verif_next(unsigned long long index){
+    record* next_ptr=entries[index].next;
+    return(next_ptr ? next_ptr-entries : max_buffer_size);
+  }
+#endif
 #endif
 };
   
